@@ -7,6 +7,12 @@ FACTS = [("QuartzModel.Theorems.Facts", t) for t in [
 ODO = [("QuartzModel.Proofs.Odometer", t) for t in ["Odo.findForward_spec", "Odo.loop_fuel", "Odo.μ6_measure"]]
 
 THEOREMS = {
+    "C03": [], "C04": [], "C08": [], "C09": [],
+    "C11": [("QuartzModel.Theorems.C11", "Queue." + t) for t in [
+        "hpush_perm", "hpush_heap", "hpop_spec", "hpop_empty", "hremove_spec", "heap_root_min",
+        "C11_inv_step", "C11_inv_reachable", "C11_push_new", "C11_push_duplicate", "C11_push_replace", "C11_pop_min",
+        "C11_head_min", "C11_empty_errors", "C11_get", "C11_remove", "C11_list_exact", "C11_list_all",
+        "StrOp.startsWith_iff", "StrOp.endsWith_iff", "StrOp.contains_iff", "StrOp.equals_iff"]],
     "C01": FACTS + ODO,
     "C02": FACTS + ODO,
     "C06": FACTS + ODO,
